@@ -439,6 +439,78 @@ ext_parse!(c14_ext_end_8, 0, 8);
 // @stub alloc::fmt::format -> String::new()
 ext_parse!(c14_ext_backing_format_4, 0xe2792aca, 4);
 
+// @harness c14_ext_feature_table_2
+// @props C14
+// @tier quick
+// @timeout 900
+// @desc private Qcow2HeaderExtension::from: feature-name table with a 2-byte entry (type and bit, empty name): never panics
+// @bounds data length 2 (concrete), content arbitrary
+// @funcs Qcow2HeaderExtension::from
+// @stub alloc::fmt::format -> String::new()
+// @stub HashMap::insert -> no-op (map content is not observed)
+// @stub RandomState::new -> fixed keys
+// @stub String::from_utf8_lossy -> ""
+ext_parse!(c14_ext_feature_table_2, 0x6803f857, 2);
+
+// @harness c14_ext_feature_table_48
+// @props C14
+// @tier quick
+// @timeout 900
+// @desc private Qcow2HeaderExtension::from: feature-name table with exactly one full entry: never panics
+// @bounds data length 48 (concrete), content arbitrary
+// @funcs Qcow2HeaderExtension::from
+// @stub alloc::fmt::format -> String::new()
+// @stub HashMap::insert -> no-op (map content is not observed)
+// @stub RandomState::new -> fixed keys
+// @stub String::from_utf8_lossy -> ""
+ext_parse!(c14_ext_feature_table_48, 0x6803f857, 48);
+
+// @harness c14_ext_feature_table_50
+// @props C14
+// @tier quick
+// @timeout 900
+// @desc private Qcow2HeaderExtension::from: feature-name table with one full entry and a 2-byte remainder: never panics
+// @bounds data length 50 (concrete), content arbitrary
+// @funcs Qcow2HeaderExtension::from
+// @stub alloc::fmt::format -> String::new()
+// @stub HashMap::insert -> no-op (map content is not observed)
+// @stub RandomState::new -> fixed keys
+// @stub String::from_utf8_lossy -> ""
+ext_parse!(c14_ext_feature_table_50, 0x6803f857, 50);
+
+// @harness c14_ext_feature_table_97
+// @props C14
+// @tier quick
+// @timeout 900
+// @desc private Qcow2HeaderExtension::from: feature-name table with two full entries and a 1-byte remainder: never panics
+// @bounds data length 97 (concrete), content arbitrary
+// @funcs Qcow2HeaderExtension::from
+// @stub alloc::fmt::format -> String::new()
+// @stub HashMap::insert -> no-op (map content is not observed)
+// @stub RandomState::new -> fixed keys
+// @stub String::from_utf8_lossy -> ""
+ext_parse!(c14_ext_feature_table_97, 0x6803f857, 97);
+
+// @harness c14_ext_unknown_0
+// @props C14
+// @tier quick
+// @timeout 900
+// @desc private Qcow2HeaderExtension::from: unknown extension without data: never panics
+// @bounds data length 0 (concrete), content arbitrary
+// @funcs Qcow2HeaderExtension::from
+// @stub alloc::fmt::format -> String::new()
+ext_parse!(c14_ext_unknown_0, 0x12345678, 0);
+
+// @harness c14_ext_backing_format_1
+// @props C14
+// @tier quick
+// @timeout 900
+// @desc private Qcow2HeaderExtension::from: backing-format extension with one arbitrary byte: never panics
+// @bounds data length 1 (concrete), content arbitrary
+// @funcs Qcow2HeaderExtension::from
+// @stub alloc::fmt::format -> String::new()
+ext_parse!(c14_ext_backing_format_1, 0xe2792aca, 1);
+
 // @harness c15_header_serialize
 // @props C15 C16
 // @tier quick
